@@ -261,7 +261,7 @@ package badger
 //@   assigns held(o.Mutex), o.nextTxnTs
 
 //@ func (*oracle).discardAtOrBelow
-//@   props C36 C13
+//@   props C36 C13 C01 C12
 //@   requires o.readMark != nil
 //@   ensures[managed] o.isManaged ==> result == o.discardTs
 //@   ensures[watermark] !o.isManaged ==> result == o.readMark.doneUntil.v
@@ -588,6 +588,7 @@ package badger
 //@   props C03
 //@   light
 //@   assert[precheck-first] before call commitAndSend : called(commitPrecheck#1) && ret(commitPrecheck#1) == nil && arg0 == txn
+//@   assert[only-a-transaction-without-writes-is-skipped] before return#1 : result == nil && len(txn.pendingWrites) == 0
 //@   assert[send-error-returned] before return#3 : result == ret1(commitAndSend#1) && result != nil
 //@   assert[waits-for-apply] before return#4 : called(txnCb#1) && result == ret(txnCb#1)
 
@@ -2205,7 +2206,7 @@ package badger
 // A compaction's MANIFEST change is logged, without error, before the new tables replace the
 // old ones and before the input tables lose their last reference (and so their files).
 //@ func (*levelsController).runCompactDef
-//@   props C08 C14
+//@   props C08 C14 C01 C12
 //@   light
 //@   assert[manifest-before-replace] before call replaceTables : called(addChanges#1) && ret(addChanges#1) == nil
 //@   assert[replace-before-delete] before call deleteTables : called(replaceTables#1) && ret(replaceTables#1) == nil
@@ -2213,14 +2214,15 @@ package badger
 
 // A flushed table is recorded in the MANIFEST before it becomes visible to compactions.
 //@ func (*levelsController).addLevel0Table
-//@   props C08 C14
+//@   props C08 C14 C03 C01
 //@   light
 //@   assert[manifest-before-publish] before call tryAddLevel0Table : t.IsInmemory || (called(addChanges#1) && ret(addChanges#1) == nil)
-//@   assert[publish-this-table] before call tryAddLevel0Table : arg1 == t
+//@   assert[publish-this-table] before call tryAddLevel0Table : arg1 == t && arg0 == s.levels[0]
+//@   assert[success-only-once-the-table-is-in] before return : result == nil ==> called(tryAddLevel0Table#1) && ret(tryAddLevel0Table#1)
 
 // An immutable memtable leaves the list and gives up its WAL only after its flush succeeded.
 //@ func (*DB).flushMemtable
-//@   props C08
+//@   props C08 C03 C01
 //@   light
 //@   assert[flush-before-release] before call DecrRef : called(handleMemTableFlush#1) && ret(handleMemTableFlush#1) == nil && held(db.lock)
 //@   assert[flush-this-memtable] before call handleMemTableFlush : arg0 == db && arg1 == mt && mt != nil
